@@ -1315,7 +1315,8 @@ def pmodel_term(m, names):
     params = ct.lst([ct.tup(names.p(p.name), ct.q(F(str(p.init))), ct.boolean(p.fix)) for p in m.parameters])
     return ("(mkPM " + stms_term(m.statements, names) + "\n    " + params + "\n    "
             + ct.lst([rdist_term(d, names) for d in m.random_variables]) + " "
-            + ct.lst([names.p(str(opaque(y))) for y in m.dependent_variables]) + ")")
+            + ct.lst([names.p(str(opaque(y))) for y in m.dependent_variables]) + " "
+            + ct.pos({'PREDICTION': 1, 'LIKELIHOOD': 2, '-2LL': 3}.get(m.value_type, 4)) + ")")
 
 
 def _obs_pm(thunk, names, refusal=(ValueError, NotImplementedError)):
@@ -1348,6 +1349,8 @@ def _corpus_models(ctx, n, steps_allowed=None):
             except Exception:
                 pass
         yield {'start': s, 'history': applied}, m
+    # a model whose value_type is not the default (convert_model must pass it on, commit 7115d86)
+    yield {'start': 'pheno', 'history': ['value_type=LIKELIHOOD']}, starts['pheno']().replace(value_type='LIKELIHOOD')
 
 
 def _points(names, rvn, prng, k=8):
@@ -1400,12 +1403,13 @@ def component_oracle(ctx, n):
     cv = ctx.run_cases('conv', IMPORTS, 'ccase', cterms, 'verdict_conv', shard=10)
     jv = ctx.run_cases('joint', IMPORTS, 'jcase', jterms, 'verdict_joint', shard=10)
     CT = {70: 'convert_model to generic changes the statements', 71: '... the parameters', 72: '... the random variables',
-          73: '... the dependent variables', 74: 'convert_model to generic raises',
+          73: '... the dependent variables', 170: 'convert_model to generic changes the value type', 175: 'convert_model generic -> '
+          'nonmem changes the value type', 74: 'convert_model to generic raises',
           75: 'convert_model generic -> nonmem changes the statements', 76: '... the parameters',
           77: '... the random variables', 78: '... the dependent variables', 79: 'convert_model generic -> nonmem refuses'}
     JT = {90: 'split_joint_distribution: statements differ from model (must be untouched)',
           91: 'split_joint_distribution: parameters differ from model', 92: 'split_joint_distribution: random variables differ '
-          'from model (unjoin)', 93: 'split_joint_distribution: dependent variables changed', 94: 'split_joint_distribution raises',
+          'from model (unjoin)', 93: 'split_joint_distribution: dependent variables changed', 190: 'split_joint_distribution changes the value type', 94: 'split_joint_distribution raises',
           95: 'create_joint_distribution changes the statements', 96: 'create_joint_distribution changes dependent variables, rv '
           'names or loses a parameter', 97: 'create_joint_distribution raises an internal error'}
     for h, v in zip(ckept, cv):
